@@ -419,7 +419,12 @@ fn check(case: &Case) -> Verdict {
         let du = Poly::new(up.points().to_vec());
         let dl = Poly::new(lo.points().to_vec());
         let probe = mid + truth.upper * (0.5 * tm.radius());
-        let assert_side = case.config.upper_dir.is_some() || s.camber >= 0.02;
+        // Detection takes the side of the camber point farthest from the line between the two located edge points. An
+        // edge point located by curvature / radius fitting on a round edge can sit up to one edge radius off the camber
+        // axis (the curvature of a circular cap is constant), which tilts that line: the detected side is only
+        // determined by the section when the camber height clearly exceeds those offsets.
+        let off = |m: EdgeMethod, r: f64| if matches!(m, EdgeMethod::Intersect) { 0.0 } else { r };
+        let assert_side = case.config.upper_dir.is_some() || s.camber >= 0.02 + 1.5 * (off(case.config.le, s.r_le) + off(case.config.te, s.r_te));
         ensure!(!assert_side || du.dist_to(&probe) < dl.dist_to(&probe), if case.config.upper_dir.is_some() { "C10/faces/upper_not_on_requested_side" } else { "C10/faces/upper_not_on_convex_side" }, "the curve reported as upper is farther from a point offset toward the upper side than the lower one");
         // thickness through the maximum-thickness station
         match geom.get_thickness_max() {
